@@ -6,6 +6,35 @@ From V Require Import lib.Bytes lib.Sexp model.Ast model.Gen model.SourceMap spe
 Require Extraction.
 Require Import ExtrOcamlBasic.
 
+(* The wire decoder of lib/Sexp.v re-measures the remaining input at every atom (quadratic: seconds for the 64 KiB static runs of
+   the long-run family).  Same format, same results, one pass: the atom is taken by counting down its length. *)
+Fixpoint take_rev (n : nat) (s acc : bytes) : option (bytes * bytes) :=
+  match n with
+  | O => Some (rev_append acc [], s)
+  | S k => match s with [] => None | b :: r => take_rev k r (b :: acc) end
+  end.
+Fixpoint fparse (fuel : nat) (s : bytes) {struct fuel} : option (sexp * bytes) :=
+  match fuel with
+  | O => None
+  | S f =>
+      match s with
+      | x61 :: r => match read_num 0 r with
+                    | Some (n, r') => match take_rev n r' [] with Some (a, t) => Some (Atom a, t) | None => None end
+                    | None => None end
+      | x6c :: r => match read_num 0 r with
+                    | Some (n, r') =>
+                        (fix items (k : nat) (s : bytes) (acc : list sexp) {struct k} : option (sexp * bytes) :=
+                           match k with
+                           | O => Some (SList (rev_append acc []), s)
+                           | S k' => match fparse f s with Some (x, s') => items k' s' (x :: acc) | None => None end
+                           end) n r' []
+                    | None => None end
+      | _ => None
+      end
+  end.
+Definition parse_all (s : bytes) : option sexp :=
+  match fparse (S (length s)) s with Some (x, []) => Some x | _ => None end.
+
 Definition isf (f : bytes) (s : string) : bool := bytes_eqb f (bs s).
 Definition arg (n : nat) (a : list bytes) : bytes := nth n a [].
 
@@ -30,7 +59,7 @@ Definition frag_run (denot : bool) (fl : file) (name : bytes) (ev : Denote.env) 
           let r := if denot
                    then denote_f fr_orc true tbl 300 ev None body None
                    else exec_f fr_orc true (compile fr_orc tbl) 300 ev None (coalesce (gens fr_orc body None)) in
-          [bs "ok"; show_res r; show_trace (trace_of r); b2 (tbl_hoist_free tbl)]
+          [bs "ok"; show_res (resolve_res r); show_trace (trace_of r); b2 (tbl_hoist_free tbl)]
       end
   end.
 
@@ -45,7 +74,8 @@ Definition dispatch (f : bytes) (a : list bytes) : list bytes :=
                 | None => [bs "decode-ast"] end
     | None => [bs "decode-sexp"] end
   else if isf f "frag_exec" || isf f "frag_denote" then
-    (* args: AST wire, template name, environment wire[, more environment].  reply: ok, OK:<bytes> | ERR:<line>:<col>:<bytes>, trace, hoist-free flag *)
+    (* args: AST wire, template name, environment wire[, more environment].  reply: ok, OK:<bytes> | ERR:<line>:<col>:<bytes>, trace, hoist-free flag;
+       the bytes are the finished document: script definitions resolved once per render context (spec/ScriptOnce.v) *)
     match parse_all (arg 0 a), parse_all (arg 2 a) with
     | Some x, Some ev => match dfile x with
                          | Some fl => frag_run (isf f "frag_denote") fl (arg 1 a)
